@@ -73,31 +73,69 @@ def simplify_trees(case, tree_paths):
             yield dict(case, ops=new_ops)
 
 
-LEAVES = (['num', '0'], ['num', '1'], ['str', ''], ['none'], ['list', []])
+LEAVES = (['num', '0'], ['num', '1'])
+ATOMS = ('num', 'str', 'bool', 'none', 'name')
+STMTS = ('assign', 'short', 'setitem', 'setitemop', 'del', 'block')
+# tag -> (indices of expression children, index of a list-of-expressions child or None)
+SCHEMA = {
+    'bin': ((2, 3), None), 'neg': ((1,), None), 'not': ((1,), None), 'if': ((1, 2, 3), None),
+    'list': ((), 1), 'index': ((1, 2), None), 'slice': ((1, 3, 4), None), 'call': ((), 2), 'lambda': ((2,), None),
+    'assign': ((2,), None), 'short': ((3,), None), 'setitem': ((1, 2, 3), None), 'setitemop': ((1, 2, 4), None),
+    'del': ((1, 2), None), 'block': ((), 1),
+}
 
 
 def tree_reductions(t):
-    if not isinstance(t, list) or not t:
+    """Schema-aware one-step simplifications of a neutral tree (always well-formed trees)."""
+    if not isinstance(t, list) or not t or t[0] in ATOMS:
         return
     tag = t[0]
-    if tag == 'block' and len(t[1]) > 1:
-        for j in range(len(t[1])):
-            yield ['block', t[1][:j] + t[1][j + 1:]]
-    # replace children by leaves / hoist children
-    for idx in range(1, len(t)):
-        ch = t[idx]
-        if isinstance(ch, list) and ch and isinstance(ch[0], str) and ch[0] not in ('num', 'none', 'bool'):
-            if tag not in ('block',) and ch[0] not in ('assign', 'short', 'setitem', 'setitemop', 'del'):
-                for leaf in LEAVES[:2]:
-                    if ch != leaf:
-                        yield t[:idx] + [leaf] + t[idx + 1:]
-            for sub in tree_reductions(ch):
-                yield t[:idx] + [sub] + t[idx + 1:]
-        elif isinstance(ch, list) and ch and isinstance(ch[0], list):
-            # list of subtrees (block stmts, list items, call args, dict pairs)
-            for j, el in enumerate(ch):
-                if tag in ('list',) and len(ch) > 0:
-                    yield t[:idx] + [ch[:j] + ch[j + 1:]] + t[idx + 1:]
-                if isinstance(el, list) and el and isinstance(el[0], str):
-                    for sub in tree_reductions(el):
-                        yield t[:idx] + [ch[:j] + [sub] + ch[j + 1:]] + t[idx + 1:]
+    if tag == 'dict':
+        pairs = t[1]
+        for j in range(len(pairs)):
+            yield ['dict', pairs[:j] + pairs[j + 1:]]
+        for j, (k, v) in enumerate(pairs):
+            for sub in _expr_reductions(k):
+                yield ['dict', pairs[:j] + [[sub, v]] + pairs[j + 1:]]
+            for sub in _expr_reductions(v):
+                yield ['dict', pairs[:j] + [[k, sub]] + pairs[j + 1:]]
+        return
+    if tag not in SCHEMA:
+        return
+    idxs, lidx = SCHEMA[tag]
+    if tag not in STMTS:
+        # hoist a child in place of the node
+        for i in idxs:
+            if isinstance(t[i], list) and t[i][0] not in STMTS:
+                yield t[i]
+    for i in idxs:
+        ch = t[i]
+        if ch is None:
+            continue
+        for sub in _expr_reductions(ch):
+            yield t[:i] + [sub] + t[i + 1:]
+    if lidx is not None:
+        items = t[lidx]
+        for j in range(len(items)):
+            if tag == 'block' and len(items) == 1:
+                break
+            yield t[:lidx] + [items[:j] + items[j + 1:]] + t[lidx + 1:]
+        for j, el in enumerate(items):
+            red = tree_reductions(el) if (tag == 'block') else _expr_reductions(el)
+            for sub in red:
+                if tag != 'block' and sub[0] in STMTS:
+                    continue
+                yield t[:lidx] + [items[:j] + [sub] + items[j + 1:]] + t[lidx + 1:]
+
+
+def _expr_reductions(ch):
+    if not isinstance(ch, list) or not ch:
+        return
+    if ch[0] not in ('num', 'none', 'bool'):
+        for leaf in LEAVES:
+            if ch != leaf:
+                yield leaf
+    if ch[0] not in ATOMS:
+        for sub in tree_reductions(ch):
+            if sub[0] not in STMTS:
+                yield sub
